@@ -1,4 +1,5 @@
 import Qx.Proofs.C04
+import Qx.Proofs.C10
 /-!
 # C04 — with TLS required, no credential or stanza is sent before the link is encrypted
 
@@ -59,6 +60,25 @@ theorem app_send_leaks_exactly_on_a_clear_link (s : St) :
       · simp [link, hc, he] at h
       · rfl
     exact (sendIq_nc s hnc).1
+
+/-- **An application that sends only while `isConnected()` is safe, for every server.**  TLS required; the application sends
+requests only while `isConnected()` is true and calls `connectToServer` only while disconnected (`appUsesSession`, the documented
+way to use the client).  Then for EVERY script nothing but stream open / `<starttls/>` / stream close ever goes over an
+unencrypted wire, and whenever `isConnected()` is true the link is encrypted (a session is never established, nor kept, on an
+unencrypted link when TLS is required). -/
+theorem app_that_waits_for_session_is_safe (cfg : Cfg) (hreq : cfg.tls = .required) (script : List Ev)
+    (happ : Along Qx.C10.appUsesSession (init cfg) script) :
+    (∀ o ∈ (run (init cfg) script).2, o.clearOk) ∧
+    (isConnected (run (init cfg) script).1 = true → (run (init cfg) script).1.encrypted = true) := by
+  have hg0 : Qx.C10.GInv (init cfg) :=
+    ⟨init_inv cfg, (by intro h; simp [init] at h), fun h => absurd (nc_of_not_connected (by simp [init])) h⟩
+  have h := Qx.C10.run_ginv script (init cfg) hreq hg0 happ
+  refine ⟨h.1, fun hi => ?_⟩
+  simp [isConnected] at hi
+  by_cases hnc : NC (run (init cfg) script).1
+  · exact hnc hi.1
+  · have := h.2.2.2 hnc
+    rw [this] at hi; cases hi.2
 
 /-- former witness (a): the server's stream header has no `version`, then the XEP-0078 fields are offered -/
 def witnessVersionless : List Ev :=
